@@ -17,7 +17,7 @@ VERIF = os.path.dirname(os.path.dirname(os.path.abspath(__file__)))
 
 
 def sh(cmd, **kw):
-    return subprocess.run(cmd, shell=True, stdout=subprocess.PIPE, stderr=subprocess.STDOUT, text=True, **kw)
+    return subprocess.run(cmd, shell=True, stdout=subprocess.PIPE, stderr=subprocess.STDOUT, text=True, errors="replace", **kw)
 
 
 def build_and_test(wt, b, threading=False):
@@ -75,7 +75,7 @@ def main():
     thr = prop == "C18"
     demo_extra = ld
     mm = re.search(r"EXTRA-FLAGS demo%s:\s*([^\n]*)" % n, notes)
-    if mm and not ld:
+    if mm and not ld and mm.group(1).strip().strip("`").startswith("-"):
         demo_extra = mm.group(1).strip().strip("`")
         meta["demo_build"] = "gcc -O1 -g %s demo.c -I <tree> -I <build> <build>/libjson-c.a -lm -lpthread" % demo_extra
     if prop == "C14":
@@ -101,22 +101,21 @@ def main():
             okd, td = build_and_test(wt, wt + "_b2", False)
             meta["ran"].append("patched tree, default configuration: suite %s (%s)" % ("passes" if okd else "FAILS", td))
             meta["confirmed"] = meta["confirmed"] and okd
+        # the checks are run against the scratch worktree with the patch applied (VF_REPO), so nothing in /repo is touched and
+        # concurrent soak runs are not disturbed; this is the same code path as `git -C /repo apply` + check + checkout.
+        results = {}
+        env = dict(os.environ)
+        env["VF_REPO"] = wt
+        for c in checks:
+            r = subprocess.run("cd %s && timeout 1500 ./vf check %s --tier quick" % (VERIF, c), shell=True, stdout=subprocess.PIPE, stderr=subprocess.STDOUT, text=True, env=env)
+            keys = re.findall(r"key=(\S+)", r.stdout)
+            results[c] = {"exit": r.returncode, "violation_keys": keys[:8], "summary": r.stdout.strip().split("\n")[-1][:200]}
     finally:
         sh("git -C /repo worktree remove --force %s" % wt)
         shutil.rmtree(wt + "_b", ignore_errors=True)
         shutil.rmtree(wt + "_b2", ignore_errors=True)
-    # the checks rebuild from /repo itself
-    a = sh("git -C /repo apply %s" % patch)
-    results = {}
-    try:
-        if a.returncode == 0:
-            for c in checks:
-                r = sh("cd %s && timeout 1500 ./vf check %s --tier quick" % (VERIF, c))
-                keys = re.findall(r"key=(\S+)", r.stdout)
-                results[c] = {"exit": r.returncode, "violation_keys": keys[:8], "summary": r.stdout.strip().split("\n")[-1][:200]}
-    finally:
-        sh("git -C /repo checkout -- .")
         sh("rm -rf %s/replay" % VERIF)
+        sh("cd %s && git checkout -- evidence" % VERIF)
     meta["checks"] = results
     meta["caught_by"] = [c for c, r in results.items() if r["exit"] == 1]
     m = re.search(r"(?s)(patch ?%s|Patch %s|## %s)[^\n]*\n(.{0,1500})" % (n, n, n), notes)
